@@ -169,6 +169,26 @@ func c13Exec(w *run.Worker, part string, scripts map[string][]*rt.Node) {
 		return
 	}
 	if v.Real.Err != nil && v.RefErr != nil {
+		// the rendered text has one line per chain entry — also when the host runs with debug logging
+		// (the loggers then format the error while it is still being built)
+		if msg := c13Rendering(v.Real.Err); msg != "" {
+			w.Violate("C13:"+part+":error-rendering", msg+"\n"+fmtScripts(p.Sources()), mk())
+			return
+		}
+		drv.Verbose()
+		l2, e2 := drv.Load(p.Sources())
+		var msg2 string
+		if len(e2) == 0 {
+			if r2 := drv.Run(l2["a.p"], p.Point.real().Build(), &drv.Sig{FireAt: realPollCap}); r2.Err != nil {
+				msg2 = c13Rendering(r2.Err)
+			}
+		}
+		drv.Quiet()
+		w.Eval()
+		if msg2 != "" {
+			w.Violate("C13:"+part+":error-rendering-under-debug-logging", msg2+"\n"+fmtScripts(p.Sources()), mk())
+			return
+		}
 		if msg := chainCheck(v.Real.Err, v.RefErr); msg != "" {
 			w.Violate("C13:"+part+":error-chain:"+strings.SplitN(msg, " ", 3)[0]+"-"+strings.SplitN(msg, " ", 3)[1],
 				msg+"\nerror: "+v.Real.Err.Error()+"\n"+fmtScripts(p.Sources()), mk())
@@ -179,6 +199,20 @@ func c13Exec(w *run.Worker, part string, scripts map[string][]*rt.Node) {
 	if w.WantSample() && w.Index()%4099 == 0 {
 		w.Sample(map[string]any{"scripts": p.Sources(), "trace": v.Real.Trace, "point": v.Real.Point})
 	}
+}
+
+// c13Rendering: Error() = first line "file:ln:col: message", then one "file:ln:col:" line per further entry.
+func c13Rendering(e *errchain.PlError) string {
+	lines := strings.Split(e.Error(), "\n")
+	if len(lines) != len(e.PosChain) {
+		return fmt.Sprintf("the error carries %d positions but renders %d lines: %q", len(e.PosChain), len(lines), e.Error())
+	}
+	for i, p := range e.PosChain {
+		if want := fmt.Sprintf("%s:%d:%d:", p.File, p.Ln, p.Col); !strings.HasPrefix(lines[i], want) {
+			return fmt.Sprintf("line %d of the rendering is %q, the chain entry is %s", i, lines[i], want)
+		}
+	}
+	return ""
 }
 
 func fmtScripts(m map[string]string) string {
